@@ -149,7 +149,21 @@ def generate(rng, tier, index):
     for op in ops:
         if op["op"] == "call" and r2.random() < 0.085:
             op["fail"] = True
-    return {"prop": ID, "env": env, "installed": installed, "ops": ops}
+    # fault injection on the import seam (own stream, so the scenarios above are what they were):
+    # a *broken install* is a module that the import system finds but whose import raises ImportError
+    # (missing shared library); it is not importable, so the documented rules treat it as absent.
+    # `lazy` serves the importable extension modules through a sys.meta_path finder instead of a
+    # ready-made sys.modules entry, which is how a real installed module first appears.
+    r3 = random.Random(r2.random())
+    broken = [m for m in MODS if m != "z3" and m not in installed and r3.random() < 0.2]
+    for op in ops:
+        if op["op"] == "remove" and op["mod"] != "z3" and r3.random() < 0.4:
+            op["op"] = "break"
+    lazy = r3.random() < 0.4
+    for op in ops:
+        if op["op"] == "graph" and op["fn"] in SHAPED_FNS and r3.random() < 0.6:
+            op["shape"] = r3.randint(1, 55)
+    return {"prop": ID, "env": env, "installed": installed, "broken": broken, "lazy": lazy, "ops": ops}
 
 
 def valid(sc):
@@ -159,6 +173,9 @@ def valid(sc):
                 return False
         for m in sc["installed"]:
             if m not in MODS:
+                return False
+        for m in sc.get("broken", []):
+            if m not in MODS or m == "z3" or m in sc["installed"]:
                 return False
         for op in sc["ops"]:
             k = op["op"]
@@ -170,6 +187,9 @@ def valid(sc):
                     return False
             elif k in ("install", "remove"):
                 if op["mod"] not in MODS:
+                    return False
+            elif k == "break":
+                if op["mod"] not in MODS or op["mod"] == "z3":
                     return False
             elif k == "assign":
                 if op["field"] not in ("default_backend", "backend_path", "use_graph_primitive", "use_graph_division_primitive"):
@@ -247,6 +267,46 @@ def purge_cspuz():
             del sys.modules[name]
 
 
+class _BrokenLoader:
+    def create_module(self, spec):
+        return None
+
+    def exec_module(self, module):
+        raise ImportError(f"lib{module.__name__}.so: cannot open shared object file: No such file or directory")
+
+
+class _LazyLoader:
+    def __init__(self, factory):
+        self.factory = factory
+
+    def create_module(self, spec):
+        return self.factory()
+
+    def exec_module(self, module):
+        pass
+
+
+class _SimFinder:
+    """sys.meta_path entry owned by the simulated process: names in `broken` are found but fail to
+    import; names in `lazy` are found and import to the recording fake."""
+
+    def __init__(self, world):
+        self.world = world
+        self.broken = set()
+        self.lazy = set()
+
+    def find_spec(self, name, path=None, target=None):
+        import importlib.machinery
+
+        if name in self.broken:
+            self.world.res.hit("module:broken-import-attempted")
+            return importlib.machinery.ModuleSpec(name, _BrokenLoader())
+        if name in self.lazy:
+            w = self.world
+            return importlib.machinery.ModuleSpec(name, _LazyLoader(lambda: peers.fake_extension_module(name, w.peer, w.recorder)))
+        return None
+
+
 class _World:
     def __init__(self, res):
         self.res = res
@@ -267,23 +327,34 @@ class _World:
         real_z3.Solver.check = check
         self.cspuz = None
         self.fake_sub = None
+        self.finder = _SimFinder(self)
+        self.lazy = False
+        sys.meta_path.insert(0, self.finder)
 
-    def apply_durable(self, env, installed):
+    def apply_durable(self, env, installed, broken=()):
         for k in ENV_KEYS:
             if k in env:
                 os.environ[k] = env[k]
             else:
                 os.environ.pop(k, None)
-        self.apply_modules(installed)
+        self.apply_modules(installed, broken)
 
-    def apply_modules(self, installed):
+    def apply_modules(self, installed, broken=()):
+        self.finder.broken = set(broken)
+        self.finder.lazy = set()
         for m in MODS:
             if m == "z3":
                 sys.modules["z3"] = self.real_z3 if "z3" in installed else None
             elif m in installed:
                 cur = sys.modules.get(m)
                 if cur is None or not getattr(cur, "__verif_fake__", False):
-                    sys.modules[m] = peers.fake_extension_module(m, self.peer, self.recorder)
+                    if self.lazy:
+                        sys.modules.pop(m, None)
+                        self.finder.lazy.add(m)
+                    else:
+                        sys.modules[m] = peers.fake_extension_module(m, self.peer, self.recorder)
+            elif m in broken:
+                sys.modules.pop(m, None)  # found by the finder; the import itself fails
             else:
                 sys.modules[m] = None
 
@@ -303,6 +374,8 @@ class _World:
 
     def close(self):
         self.real_z3.Solver.check = self.orig_check
+        if self.finder in sys.meta_path:
+            sys.meta_path.remove(self.finder)
         for k, v in self.saved_env.items():
             if v is None:
                 os.environ.pop(k, None)
@@ -331,13 +404,31 @@ def _has_native(cspuz, constraints):
     return any(walk(c) for c in constraints)
 
 
-def _call_graph(cspuz, fn, flag, solver=None, variant=0):
+# graph shapes for the vertex-connectivity calls (4 vertices each) and board shapes for their grid forms;
+# index 0 is the shape every other call uses.  Forests (paths, stars, edgeless, 1xN boards) are here
+# because "never native for acyclic connectivity" has to hold on them too.
+GRAPH_SHAPES = [
+    ((0, 1), (1, 2), (2, 3), (3, 0)),
+    ((0, 1), (1, 2), (2, 3)),
+    ((0, 1), (0, 2), (0, 3)),
+    ((0, 1), (2, 3)),
+    (),
+    ((0, 1), (0, 1), (1, 2)),
+    ((0, 1), (0, 2), (0, 3), (1, 2), (1, 3), (2, 3)),
+    ((2, 3),),
+]
+GRID_SHAPES = [(2, 2), (1, 4), (4, 1), (1, 1), (2, 3), (1, 2), (3, 1)]
+SHAPED_FNS = ("avc", "avc_acyclic", "avc_list", "avc_grid", "avc_grid_acyclic")
+
+
+def _call_graph(cspuz, fn, flag, solver=None, variant=0, shape=0):
     from cspuz import graph as G
 
     s = solver if solver is not None else cspuz.Solver()
     g = G.Graph(4)
-    for u, v in ((0, 1), (1, 2), (2, 3), (3, 0)):
+    for u, v in GRAPH_SHAPES[shape % len(GRAPH_SHAPES) if fn in SHAPED_FNS else 0]:
         g.add_edge(u, v)
+    board = GRID_SHAPES[shape % len(GRID_SHAPES) if fn in SHAPED_FNS else 0]
     kw = {} if flag is None else {"use_graph_primitive": flag}
     if fn == "avc":
         G.active_vertices_connected(s, s.bool_array(4), graph=g, **kw)
@@ -362,9 +453,9 @@ def _call_graph(cspuz, fn, flag, solver=None, variant=0):
     elif fn == "division_connected_roots":
         G.division_connected(s, s.int_array(4, 0, 1), 2, graph=g, roots=[0, None], allow_empty_group=True)
     elif fn == "avc_grid":
-        G.active_vertices_connected(s, s.bool_array((2, 2)), **kw)
+        G.active_vertices_connected(s, s.bool_array(board), **kw)
     elif fn == "avc_grid_acyclic":
-        G.active_vertices_connected(s, s.bool_array((2, 2)), acyclic=True, **kw)
+        G.active_vertices_connected(s, s.bool_array(board), acyclic=True, **kw)
     elif fn == "single_cycle_grid":
         G.active_edges_single_cycle(s, cspuz.BoolGridFrame(s, 1, 1), **kw)
     elif fn == "single_path_grid":
@@ -395,18 +486,20 @@ def run(sc) -> RunResult:
     res.log("start", ID, sc.get("seed"))
     env = dict(sc["env"])
     installed = set(sc["installed"])
+    broken = set(sc.get("broken", []))
     up = False
     cfg = None
     z3_cached = False
     restarted = False
     world = _World(res)
+    world.lazy = bool(sc.get("lazy"))
     try:
         with warnings.catch_warnings():
             warnings.simplefilter("ignore")
             for n_op, op in enumerate(sc["ops"]):
                 k = op["op"]
                 res.steps += 1
-                res.states.add(core.digest([sorted(env.items()), sorted(installed), up, cfg])[:16])
+                res.states.add(core.digest([sorted(env.items()), sorted(installed), sorted(broken), up, cfg])[:16])
                 if k == "setenv":
                     env[op["key"]] = op["val"]
                     os.environ[op["key"]] = op["val"]
@@ -419,16 +512,24 @@ def run(sc) -> RunResult:
                     continue
                 if k == "install":
                     installed.add(op["mod"])
-                    world.apply_modules(installed)
+                    broken.discard(op["mod"])
+                    world.apply_modules(installed, broken)
                     res.hit("module:install:" + op["mod"])
                     continue
                 if k == "remove":
                     installed.discard(op["mod"])
-                    world.apply_modules(installed)
+                    broken.discard(op["mod"])
+                    world.apply_modules(installed, broken)
                     res.hit("module:remove:" + op["mod"])
                     continue
+                if k == "break":
+                    installed.discard(op["mod"])
+                    broken.add(op["mod"])
+                    world.apply_modules(installed, broken)
+                    res.hit("fault:module-install-broken:" + op["mod"])
+                    continue
                 if k == "restart":
-                    world.apply_durable(env, installed)
+                    world.apply_durable(env, installed, broken)
                     z3_cached = False
                     try:
                         want = model_config(env, installed)
@@ -680,6 +781,8 @@ def _do_graph(res, cspuz, n_op, op, cfg):
     expect_native = bool(use) and fn not in ("avc_acyclic", "avc_grid_acyclic")
     tag = f"op#{n_op} {fn}(use_graph_primitive={flag!r}) with config.{field}={cfg[field]!r}"
     res.hit(f"graph:{fn}:" + ("explicit" if flag is not None else "default"))
+    if op.get("shape", 0) and fn in SHAPED_FNS:
+        res.hit("graph:shape:" + str(GRID_SHAPES[op["shape"] % len(GRID_SHAPES)] if "grid" in fn else op["shape"] % len(GRAPH_SHAPES)))
     reuse = _LAST_SOLVER.get("s") if op.get("same_solver") else None
     if reuse is not None and _LAST_SOLVER.get("cspuz") is not cspuz:
         reuse = None  # the process was restarted since
@@ -687,7 +790,7 @@ def _do_graph(res, cspuz, n_op, op, cfg):
     if reuse is not None:
         res.hit("graph:same_solver_as_previous_call")
     try:
-        s = _call_graph(cspuz, fn, flag, reuse, variant=n_op)
+        s = _call_graph(cspuz, fn, flag, reuse, variant=n_op, shape=op.get("shape", 0))
         _LAST_SOLVER["s"] = s
         _LAST_SOLVER["cspuz"] = cspuz
     except RuntimeError as e:
@@ -727,9 +830,18 @@ def shrink_candidates(sc):
         yield dict(sc, env=e)
     for m in sc["installed"]:
         yield dict(sc, installed=[x for x in sc["installed"] if x != m])
+    for m in sc.get("broken", []):
+        yield dict(sc, broken=[x for x in sc["broken"] if x != m])
+    if sc.get("lazy"):
+        yield dict(sc, lazy=False)
+    for n, op in enumerate(ops):
+        if op["op"] == "break":
+            yield dict(sc, ops=ops[:n] + [dict(op, op="remove")] + ops[n + 1 :])
     for n, op in enumerate(ops):
         if op["op"] == "graph" and op["flag"] is not None and op["fn"] != "avc":
             yield dict(sc, ops=ops[:n] + [dict(op, fn="avc")] + ops[n + 1 :])
+        if op["op"] == "graph" and op.get("shape"):
+            yield dict(sc, ops=ops[:n] + [{k: v for k, v in op.items() if k != "shape"}] + ops[n + 1 :])
         if op["op"] == "graph" and op.get("same_solver"):
             yield dict(sc, ops=ops[:n] + [dict(op, same_solver=False)] + ops[n + 1 :])
         if op["op"] == "call" and op["kind"] == "solve":
